@@ -34,8 +34,9 @@ META = {
     "design_ref": "DESIGN.md section 3, C20",
 }
 
-QUICK_CHECKS = ["clock", "intended_files", "intended_opts"]
-THOROUGH_CHECKS = QUICK_CHECKS + ["intended_codegen"]
+QUICK_CHECKS = ["clock", "intended_q", "intended_cg_q"]
+BEYOND = ["beyond_backdated", "beyond_split"]        # expected to violate ResultIsFresh (outside the premise)
+THOROUGH_CHECKS = QUICK_CHECKS + ["intended_files", "intended_opts", "intended_codegen"]
 QUICK_GRAPHS = ["g_mtime", "g_sub", "g_libs", "g_opts", "g_codegen_q"]
 THOROUGH_GRAPHS = QUICK_GRAPHS + ["g_codegen", "g_big"]
 INIT_FILES = {"M": 1, "L1": 1, "L2": 1}
@@ -53,14 +54,15 @@ def ids_of(am):
     s = am["src"]
     lib = s["L1"] if s["L1"] else (50 + s["L2"] if s["L2"] else 0)
     return {"M": s["M"], "L": lib, "T": 10 + s["A"] if s["A"] else 0, "U": 10 + s["S"] if s["S"] else 0,
-            "simp": am["simp"], "ev": am["ev"]}
+            "simp": am["simp"], "ev": am["ev"], "by": am.get("by", 1)}
 
 
 _fresh_memo = {}
 
 
-def fresh_projection(sb, oname, mode):
-    key = sb.fresh_key(oname, mode)
+def fresh_projection(sb, oname, mode, version):
+    key = sb.fresh_key(oname, mode) + "@%s" % version
+    mc.api().__version__ = "verif-%d" % version
     if key not in _fresh_memo:
         try:
             _fresh_memo[key] = mc.project(sb.fresh(oname, mode))
@@ -82,6 +84,7 @@ def run_history(sc):
     oname, version = "O1", 1
     held = []
     since = set()
+    pending = None
 
     def note(kind):
         drift[kind] = drift.get(kind, 0) + 1
@@ -90,7 +93,26 @@ def run_history(sc):
             a = act["act"]
             stats["steps"] += 1
             stats[a] = stats.get(a, 0) + 1
-            if a in ("edit", "add"):
+            if a == "transfer_begin":
+                pending = {"mode": act["mode"], "edits": []}
+            elif a in ("edit", "add") and pending is not None:
+                pending["edits"].append(act)           # happens while the compile is running
+            elif a == "transfer_end":
+                api_ = mc.api()
+                real_save = api_.save_model
+                todo = pending["edits"]
+
+                def save_after_edits(*x, **kw):
+                    for e in todo:
+                        sb.edit(e["f"], e["k"])
+                    return real_save(*x, **kw)
+                api_.save_model = save_after_edits
+                try:
+                    sb.transfer(oname, pending["mode"], version="verif-%d" % version)
+                finally:
+                    api_.save_model = real_save
+                pending = None
+            elif a in ("edit", "add"):
                 if sc.get("backdate"):
                     sb.write(act["f"], act["k"], 0)      # self-test: an edit that does NOT get a later mtime
                 else:
@@ -120,7 +142,7 @@ def run_history(sc):
                 hit = type(model).__name__ == "CachedModel"
                 stats["hit" if hit else "miss"] += 1
                 got = mc.project(model)
-                ref = fresh_projection(sb, oname, mode)
+                ref = fresh_projection(sb, oname, mode, version)
                 bad, dr = mc.compare(ref, got)
                 for d in dr:
                     note(d[0])
@@ -179,7 +201,7 @@ def run(ctx):
     graphs = THOROUGH_GRAPHS if thorough else QUICK_GRAPHS
     import time
     t0 = time.time()
-    jobs = [(c, 2) for c in checks] + [("asbuilt_opts", 1)] + [(gname, 1) for gname in graphs]
+    jobs = [(c, 4 if thorough else 2) for c in checks] + [("asbuilt_opts", 1)] + [(c, 1) for c in BEYOND] + [(gname, 1) for gname in graphs]
     with ThreadPoolExecutor(4) as ex:
         results = dict(ex.map(_run_tlc, jobs))
     ctx.extra["wall_tlc_s"] = round(time.time() - t0, 1)
@@ -196,6 +218,11 @@ def run(ctx):
     ctx.extra["asbuilt_violates"] = r.violated
     if "ResultIsFresh" not in r.violated:
         raise MachineryError("as-built variant no longer violates ResultIsFresh: switches and cfg out of step")
+    for c in BEYOND:
+        r = results[c]
+        ctx.add_tlc(r, "outside the premise (%s), expected to violate ResultIsFresh" % c)
+        if "ResultIsFresh" not in r.violated:
+            raise MachineryError("%s no longer violates ResultIsFresh" % c)
     # 3. replay the as-built transition graphs
     scratch = tempfile.mkdtemp(prefix="vfc20_")
     os.environ["VF_MC_SCRATCH"] = scratch
@@ -250,6 +277,14 @@ def run(ctx):
                                    {"act": "transfer", "mode": "cache"}], "backdate": True})
         if not any(r["observable"] == "stale-model" for r in st["records"]):
             raise MachineryError("binding self-test failed: a deliberately stale cache hit (library file) was not noticed")
+        # outside the premise (spec: Beyond = {"backdated"} / {"split"}): confirm on the code that the spec is right
+        # about where the guarantee ends.  Observations only - never a violation of C20.
+        beyond = {"backdated": "stale hit reproduced on the code (an edit that keeps an old mtime)"}
+        st = run_history({"acts": [{"act": "transfer_begin", "mode": "cache"}, {"act": "add", "f": "A", "k": 1},
+                                   {"act": "transfer_end"}, {"act": "transfer", "mode": "cache"}]})
+        beyond["split"] = ("stale hit reproduced on the code: a file added while transfer_model was compiling is older than the cache file written afterwards"
+                           if any(r["observable"] == "stale-model" for r in st["records"]) else "not reproduced on the code")
+        ctx.extra["beyond_premise"] = beyond
         ctx.extra["graphs"] = ginfo
         ctx.extra["replayed"] = totals
     finally:
